@@ -5,7 +5,7 @@
    interpretation).  [fx] is NOT in the Rust code: [fx = false] is the code as it is (the three
    id-class tests of the key fast path forget LexemeId::I64 = 0x0317 > UNQUOTED, DESIGN 7-B);
    [fx = true] adds [&& id != I64] at exactly those three tests.  The correspondence check runs
-   [fx = Tables.fast_path_excludes_i64], generated from the three tests in the source (false today).
+   [fx = Tables.fast_path_excludes_i64], generated from the three tests in the source (true since the fix: commit for finding B (it was false on the original tree)).
 
    State: data (rest of the input), ParseState, parent_ind, token tape (a list, push = snoc).
    Indices are nat.  Every unchecked access / unreachable / debug_assert is an explicit outcome.
